@@ -592,6 +592,45 @@ pub fn run(ctx: &Ctx, sink: &mut Sink) {
         }
         sink.count("forbidden_names_tried", names.len() as u64);
     }
+    // ---- an assignment in every expression position a top-level statement has (outside do-blocks and function bodies),
+    // with a target that is already bound (data / function), fresh, or reserved; each statement is run twice
+    if ctx.shard_i == 0 {
+        const CONTEXTS: [&str; 36] = [
+            "if true then @ else 0", "if false then 0 else @", "if true then (@) else 0", "c = if true then @ else 0", "c = if false then 0 else @", "if (@) == 2 then 1 else 0",
+            "if true then if true then @ else 0 else 0", "if false then 0 else if false then 0 else @", "(if true then @ else 0) + 1", "[if true then @ else 0]", "c = [if false then 0 else @]",
+            "[@]", "[1, @, 3]", "{k: @}", "{k: (@)}", "abs(@)", "max(1, @)", "(@) + 1", "1 + (@)", "-(@)", "(@) and true", "false or (@)", "null ?? (@)", "[(@)][0]", "[...[@]]", "{...{k: @}}",
+            "(@) into (q => q)", "(q => q)(@)", "output c = (@)", "output c = if true then @ else 0", "c = d = @", "((@))", "format(\"{}\", @)", "c = (@)", "{k: if true then @ else 0}.k", "typeof(if true then @ else 0)",
+        ];
+        const TARGETS: [&str; 8] = ["a", "b", "z", "inputs", "constants", "sum", "true", "return"];
+        const VALUES: [&str; 3] = ["2", "x => x", "null"];
+        let mut n_ctx = 0u64;
+        for cx in CONTEXTS.iter() {
+            for tg in TARGETS.iter() {
+                for val in VALUES.iter() {
+                    let stmt = cx.replace('@', &format!("{} = {}", tg, val));
+                    let mut tops: Vec<&str> = vec![tg];
+                    let outer = if stmt.starts_with("c = ") || stmt.starts_with("output c = ") { Some("c") } else { None };
+                    if outer.is_some() {
+                        tops.push("c");
+                    }
+                    if stmt.contains("d = ") {
+                        tops.push("d");
+                    }
+                    let seq_owned = vec![
+                        tpl("a = 1", Some("a"), &["a"], &["a"]),
+                        tpl("b = x => x + a", Some("b"), &["b"], &["a", "b"]),
+                        tpl(&stmt, outer, &tops, &[tg, "c", "d"]),
+                        tpl(&stmt, outer, &tops, &[tg, "c", "d"]),
+                        tpl("[a, b(1)]", None, &[], &["a", "b"]),
+                    ];
+                    let refs: Vec<&Tpl> = seq_owned.iter().collect();
+                    run_sequence(sink, &refs, &format!("ctx|{}", stmt));
+                    n_ctx += 1;
+                }
+            }
+        }
+        sink.count("assignment_position_sequences", n_ctx);
+    }
     // ---- random longer sessions on 6 names
     let sessions = ctx.budget(1500, 30_000);
     let names = ["a", "b", "c", "d", "f", "g"];
